@@ -211,6 +211,7 @@ class Interp:
         self.extern_used = set()
         self.trace = []  # ghost event trace (events put on queues / yielded at top level)
         self.ghost = {}  # ghost variables (DESIGN 1.3)
+        self.abstract_log = []  # (fq, result, raised class name) of every abstract call, in order (for native replay stubs)
         self.loop_counter = {}
         from . import builtins_ as B
 
@@ -221,6 +222,12 @@ class Interp:
         if ":" not in qual:
             return builtin_class(qual)
         modname, _, name = qual.partition(":")
+        if extract.module_path(modname) is None:
+            # a class from outside the repository: nominal only (fields come from the descriptor)
+            if qual not in _BUILTIN_CLASSES:
+                _BUILTIN_CLASSES[qual] = VClass(name, None, [], builtin=True)
+                _BUILTIN_CLASSES[qual].ext_qual = qual
+            return _BUILTIN_CLASSES[qual]
         mod = load_module(modname)
         v = self.module_get(mod, name)
         if not isinstance(v, VClass):
@@ -644,22 +651,24 @@ class Interp:
         for i, r in enumerate(c.requires):
             t = truthy(self.eval_spec(r, env))
             self.path.oblige(f"{self.cur_name}::call-pre:{fq.split(':')[-1]}#{i}", "call-pre", t, detail=r)
-        olds = self.capture_olds(list(c.ensures.values()) + list(c.raises_ensures.values()), env)
+        olds = self.capture_olds(list((c.call_ensures if c.call_ensures is not None else c.ensures).values()) + list(c.raises_ensures.values()), env)
         # exceptional outcomes
         opts = [("ok", True)] + [(r, True) for r in c.raises]
         out = self.path.choose(opts, f"outcome:{fq}") if c.raises else "ok"
         # frame
         for pth, d in (c.modifies.items() if isinstance(c.modifies, dict) else []):
             self.havoc_path(pth, d, env, fq)
-        for gname, gcl in c.effects.items():
-            self.ghost[gname] = self.eval_spec(gcl, env)
         if out != "ok":
+            env.vars["result"] = None
+            for gname, gcl in c.effects.items():
+                self.ghost[gname] = self.eval_spec(gcl, env)
             cls = self.resolve_exc_class(out, fn.module if fn else None)
             exc = self.make_exc(cls, ())
             env.vars["raised"] = cls.name
             env.vars["result"] = None
             for k, cl in c.raises_ensures.items():
                 self.path.assume(truthy(self.eval_spec(cl, env, olds)))
+            self.abstract_log.append((fq, None, cls.name))
             raise PyExc(exc)
         # result
         if c.pure:
@@ -670,8 +679,12 @@ class Interp:
             result = None
         env.vars["result"] = result
         env.vars["raised"] = None
-        for k, cl in c.ensures.items():
+        for k, cl in (c.call_ensures if c.call_ensures is not None else c.ensures).items():
             self.path.assume(truthy(self.eval_spec(cl, env, olds)))
+        for gname, gcl in c.effects.items():
+            self.ghost[gname] = self.eval_spec(gcl, env)
+        if not c.pure:
+            self.abstract_log.append((fq, result, None))
         return result
 
     def pure_app(self, c, fq, vals):
@@ -1724,6 +1737,12 @@ class Interp:
         if isinstance(c, bool):
             return self.eval(n.args[1 if c else 2], env)
         return wrap(z3.If(c, z3_of(self.eval(n.args[1], env)), z3_of(self.eval(n.args[2], env))))
+
+    def s_upper(self, n, env):
+        return self.B.str_method(self, self.eval(n.args[0], env), "upper", [], {})
+
+    def s_lower(self, n, env):
+        return self.B.str_method(self, self.eval(n.args[0], env), "lower", [], {})
 
     def s_ghost(self, n, env):
         name = self.eval(n.args[0], env)
